@@ -60,6 +60,19 @@ func init() {
 				Desc: "ASCII regime: out in {s, innocuous}; out == s => WHATWG scheme scanner finds no javascript scheme and no '&' before the scheme decision point"},
 			{Pkg: "safehtml", Name: "vHarness_C11_sound", Quick: []ParamRange{{"ascii", 0, 0}, {"n", 0, 4}}, Thorough: []ParamRange{{"ascii", 0, 0}, {"n", 0, 6}},
 				Desc: "general regime (arbitrary bytes, invalid UTF-8, U+0130, U+212A, ...): same obligations"},
+			{Pkg: "safehtml", Name: "vHarness_C11_padded", Quick: []ParamRange{{"space", 0, 0}, {"nh", 4, 4}, {"nt", 7, 7}, {"k", 0, 140}}, Thorough: []ParamRange{{"space", 0, 0}, {"nh", 0, 10}, {"nt", 1, 11}, {"k", 0, 300}},
+				Filter: func(p map[string]int) bool {
+					k := p["k"]
+					edge := k <= 2 || (k >= 12 && k <= 20) || (k >= 28 && k <= 36) || (k >= 50 && k <= 70) || (k >= 120 && k <= 136) || (k >= 250 && k <= 262)
+					return edge && p["nh"]+p["nt"] == 11
+				}, Reach: []string{"accepted"},
+				Desc: "long structured inputs: symbolic head + k TAB bytes + symbolic tail (head+tail = 11 bytes, k around 0, 16, 32, 64, 128, 256): reaches javascript: split by many ignorable bytes"},
+			{Pkg: "safehtml", Name: "vHarness_C11_padded", Quick: []ParamRange{{"space", 1, 1}, {"nh", 0, 0}, {"nt", 11, 11}, {"k", 0, 140}}, Thorough: []ParamRange{{"space", 1, 1}, {"nh", 0, 0}, {"nt", 11, 12}, {"k", 0, 300}},
+				Filter: func(p map[string]int) bool {
+					k := p["k"]
+					return k <= 2 || (k >= 12 && k <= 20) || (k >= 28 && k <= 36) || (k >= 50 && k <= 70) || (k >= 120 && k <= 136) || (k >= 250 && k <= 262)
+				},
+				Desc: "k leading spaces + symbolic tail"},
 			{Pkg: "safehtml", Name: "vHarness_C11_unescaped", Quick: []ParamRange{{"n", 0, 6}}, Thorough: []ParamRange{{"n", 0, 8}}, Reach: []string{"accepted"},
 				Desc: "direct form of the character-reference clause: the real html.UnescapeString (executed from stdlib SSA with the real entity tables) of an accepted ASCII string has no javascript scheme"},
 			{Pkg: "safehtml", Name: "vHarness_C11_complete_scheme", Quick: []ParamRange{{"ascii", 1, 1}, {"n", 2, 13}, {"k", 1, 12}}, Thorough: []ParamRange{{"ascii", 1, 1}, {"n", 2, 18}, {"k", 1, 17}}, Filter: kLess, Reach: []string{"premise"},
@@ -149,7 +162,7 @@ func init() {
 				Desc: "IsSafeTrustedResourceURLPrefix(f) => f has one of the four documented prefix forms (hand-written recogniser), ASCII"},
 			{Pkg: "safehtml", Name: "vHarness_C13_prefix", Quick: []ParamRange{{"ascii", 0, 0}, {"n", 0, 11}}, Thorough: []ParamRange{{"ascii", 0, 0}, {"n", 0, 14}},
 				Desc: "same for arbitrary bytes (finds the non-ASCII case folds)"},
-			{Pkg: "safehtml", Name: "vHarness_C13_format", Quick: []ParamRange{{"prefix", 0, 3}, {"t", 0, 6}, {"la", 0, 1}, {"lb", 0, 1}}, Thorough: []ParamRange{{"prefix", 0, 3}, {"t", 0, 8}, {"la", 0, 2}, {"lb", 0, 2}},
+			{Pkg: "safehtml", Name: "vHarness_C13_format", Quick: []ParamRange{{"prefix", 0, 4}, {"t", 0, 6}, {"la", 0, 1}, {"lb", 0, 1}}, Thorough: []ParamRange{{"prefix", 0, 4}, {"t", 0, 8}, {"la", 0, 2}, {"lb", 0, 2}},
 				Reach: []string{"substituted", "rejected-argument"}, ReachThorough: []string{"two-markers"},
 				Desc: "format = safe prefix + symbolic tail, args a,b symbolic: result == reference substitution with percent-encoding; missing argument or '..' argument => error; no '..' segment with argument-derived bytes"},
 			{Pkg: "safehtml", Name: "vHarness_C13_append", Quick: []ParamRange{{"nb", 0, 8}, {"n", 0, 3}}, Thorough: []ParamRange{{"nb", 0, 12}, {"n", 0, 4}}, Reach: []string{"accepted"},
@@ -167,7 +180,7 @@ func init() {
 			"safehtmlutil.IsSafeTrustedResourceURLPrefix", "safehtmlutil.URLContainsDoubleDotSegment", "safehtmlutil.QueryEscapeURL", "safehtmlutil.Stringify (string fast path)", "safehtmlutil.urlProcessor", "safehtmlutil.isHex",
 			"patterns safeTrustedResourceURLPrefixPattern, urlDoubleDotSegmentPattern, trustedResourceURLFormatMarkerPattern from the current source"},
 		Bounds: map[string]string{
-			"quick":    "prefix recogniser: ASCII formats 0..14 bytes, arbitrary bytes 0..11; Format: 4 safe prefixes x ASCII tail 0..6 x two arguments of 0..1 arbitrary bytes; Append: ASCII base 0..8 x string 0..3 bytes; WithParams: ASCII base 0..3, two entries with keys/values 0..1 bytes",
+			"quick":    "prefix recogniser: ASCII formats 0..14 bytes, arbitrary bytes 0..11; Format: 5 prefixes (one with a literal \"..\") x ASCII tail 0..6 x two arguments of 0..1 arbitrary bytes; Append: ASCII base 0..8 x string 0..3 bytes; WithParams: ASCII base 0..3, two entries with keys/values 0..1 bytes",
 			"thorough": "prefix: ASCII 0..20, arbitrary 0..14; Format: tail 0..8, arguments 0..2 bytes; Append: base 0..12, string 0..4; WithParams: base 0..5, keys/values 0..2",
 		},
 		Outside: []string{"TrustedResourceURLFormatFromFlag (differs only by flag.Value.String())", "more than two markers / arguments, longer tails", "maps with more than two entries (iteration orders explored: both orders of two entries)", "non-ASCII bytes in the format tail"},
@@ -271,6 +284,9 @@ func init() {
 			{Pkg: "template", Name: "vHarness_C14_prefix", Quick: []ParamRange{{"ctx", 0, 0}, {"amp", -3, -3}, {"np", 4, 6}}, Thorough: []ParamRange{{"ctx", 0, 3}, {"amp", -2, -2}, {"np", 3, 7}},
 				Filter: func(p map[string]int) bool { return p["ctx"] == 0 || p["ctx"] == 3 },
 				Desc: "prefix is one complete character reference &X;"},
+			{Pkg: "template", Name: "vHarness_C14_prefix", Quick: []ParamRange{{"ctx", 0, 3}, {"amp", -5, -4}, {"k", 1, 3}, {"np", 5, 8}}, Thorough: []ParamRange{{"ctx", 0, 3}, {"amp", -5, -4}, {"k", 1, 4}, {"np", 5, 10}},
+				Filter: func(p map[string]int) bool { return (p["ctx"] == 0 || p["ctx"] == 3) && p["np"]-p["k"] >= 4 && p["np"]-p["k"] <= 6 },
+				Desc: "a decimal character reference with k symbolic bytes before (-4) or after (-5) it"},
 			{Pkg: "template", Name: "vHarness_C14_data", Quick: []ParamRange{{"ctx", 0, 5}, {"amp", -1, -1}, {"np", 1, 4}, {"nd", 0, 2}}, Thorough: []ParamRange{{"ctx", 0, 5}, {"amp", -1, -1}, {"np", 1, 6}, {"nd", 0, 3}},
 				Filter: func(p map[string]int) bool { return p["ctx"] != 1 && p["ctx"] != 2 }, Reach: []string{"tru", "query", "path"},
 				Desc: "accepted prefix without '&' + data: TrustedResourceURL contexts fully percent-encode and reject '..'; query/fragment prefixes fully percent-encode; otherwise reference normalisation + HTML escaping; no '..' segment with data-derived bytes"},
@@ -326,8 +342,12 @@ func init() {
 		Harnesses: []HarnessSpec{
 			{Pkg: "template", Name: "vHarness_C04_attr", Quick: []ParamRange{{"rel", 0, 0}, {"le", 0, 24}, {"la", 0, 24}}, Thorough: []ParamRange{{"rel", 0, 0}, {"le", 0, 26}, {"la", 0, 26}}, Reach: []string{"accepted", "rejected"},
 				Desc: "symbolic element and attribute names of every length 0..24 (all 256 byte values): accepted => the reviewed policy lists the pair and the class is at least the reviewed class"},
-			{Pkg: "template", Name: "vHarness_C04_attr", Quick: []ParamRange{{"rel", 1, 5}, {"le", 4, 4}, {"la", 4, 4}}, Thorough: []ParamRange{{"rel", 1, 5}, {"le", 3, 5}, {"la", 3, 5}},
-				Desc: "the link/href special case under five rel values"},
+			{Pkg: "template", Name: "vHarness_C04_attr", Quick: []ParamRange{{"rel", 1, 10}, {"le", 4, 4}, {"la", 4, 4}}, Thorough: []ParamRange{{"rel", 1, 10}, {"le", 3, 5}, {"la", 3, 5}},
+				Desc: "the link/href special case under ten rel values"},
+			{Pkg: "template", Name: "vHarness_C04_joinnames", Quick: []ParamRange{{"attr", 0, 1}, {"n", 1, 1}, {"na", 0, 2}, {"nb", 0, 2}}, Thorough: []ParamRange{{"attr", 0, 1}, {"n", 1, 2}, {"na", 0, 2}, {"nb", 0, 2}}, Reach: []string{"joined"},
+				Desc: "conditional names: join of two contexts with symbolic names and accumulated names lists keeps every possible element / attribute name (and the list invariant)"},
+			{Pkg: "template", Name: "vHarness_C04_voidnames", Quick: []ParamRange{{"v", 0, 3}, {"o", 0, 3}, {"swap", 0, 1}, {"n", 1, 2}}, Reach: []string{"closed"},
+				Desc: "the '>' of a start tag whose name is conditional (a void and a non-void alternative) does not forget the non-void one"},
 			{Pkg: "template", Name: "vHarness_C04_content", Quick: []ParamRange{{"le", 0, 24}}, Thorough: []ParamRange{{"le", 0, 40}}, Reach: []string{"accepted", "rejected"},
 				Desc: "symbolic element name: element content accepted => listed, with the reviewed class"},
 			{Pkg: "template", Name: "vHarness_C04_positions", Quick: []ParamRange{}, Reach: []string{"name-position", "unquoted", "accepted"},
@@ -350,7 +370,7 @@ func init() {
 			"thorough": "names 0..26; element content names 0..40; data 0..5 / 0..8",
 		},
 		Outside: []string{"whether the reviewed policy (policy/reviewed_policy.json, snapshotted from the pinned tree) is itself right", "names longer than the bound (can match no table key; only dataAttributeNamePattern applies)",
-			"conditional element/attribute names (names lists built by join)", "the link rel rule is compared as implemented (any URL-valued token); its weakness is C02's subject"},
+			"how names lists are consumed beyond join/joinNames/tTag (escapeBranch composition)", "the link rel rule is compared as implemented (any URL-valued token); its weakness is C02's subject"},
 		Intrinsics: []string{"map lookups with symbolic string keys (ite over the keys of equal length / fork per candidate)", "regexp MatchString", "strings.Fields on concrete rel values"},
 	})
 
@@ -361,8 +381,8 @@ func init() {
 			{Pkg: "template", Name: "vHarness_C02_codeattr", Quick: []ParamRange{{"rel", 0, 0}, {"le", 0, 8}, {"la", 2, 8}, {"n", 1, 1}}, Thorough: []ParamRange{{"rel", 0, 0}, {"le", 0, 12}, {"la", 2, 12}, {"n", 0, 3}},
 				Filter: func(p map[string]int) bool { return p["n"] <= 1 || (p["le"] <= 6 && p["la"] <= 6) }, Reach: []string{"code-context", "rejected", "typed"},
 				Desc: "symbolic element and attribute names: where the reference list says 'code context' (on*, style, srcdoc, code-loading URL attributes) the action is rejected or the chain rejects every plain string"},
-			{Pkg: "template", Name: "vHarness_C02_codeattr", Quick: []ParamRange{{"rel", 1, 6}, {"le", 4, 4}, {"la", 4, 4}, {"n", 1, 1}}, Thorough: []ParamRange{{"rel", 1, 6}, {"le", 4, 4}, {"la", 4, 4}, {"n", 0, 3}},
-				Desc: "link/href under six rel values (stylesheet, manifest, modulepreload make it a code context)"},
+			{Pkg: "template", Name: "vHarness_C02_codeattr", Quick: []ParamRange{{"rel", 1, 10}, {"le", 4, 4}, {"la", 4, 4}, {"n", 1, 1}}, Thorough: []ParamRange{{"rel", 1, 10}, {"le", 4, 4}, {"la", 4, 4}, {"n", 0, 3}},
+				Desc: "link/href under ten rel values (stylesheet, manifest, import, modulepreload make it a code context; tokens that merely contain a URL-valued word)"},
 			{Pkg: "template", Name: "vHarness_C02_codecontent", Quick: []ParamRange{{"le", 5, 6}, {"n", 0, 3}}, Thorough: []ParamRange{{"le", 5, 6}, {"n", 0, 5}}, Reach: []string{"code-context"},
 				Desc: "script and style element content reject plain strings"},
 			{Pkg: "template", Name: "vHarness_C02_comment", Quick: []ParamRange{{"n", 0, 4}}, Thorough: []ParamRange{{"n", 0, 8}}, Reach: []string{"ran"}, Desc: "data in an HTML comment is dropped"},
@@ -375,6 +395,8 @@ func init() {
 			{Pkg: "template", Name: "vHarness_C02_url2", Quick: []ParamRange{{"schemechars", 0, 0}, {"ctx", 0, 0}, {"n1", 0, 3}, {"n2", 0, 3}}, Thorough: []ParamRange{{"schemechars", 0, 0}, {"ctx", 0, 0}, {"n1", 0, 4}, {"n2", 0, 7}},
 				Filter: func(p map[string]int) bool { return p["n1"]+p["n2"] <= 6 || (p["n1"] == 4 && p["n2"] == 7) },
 				Desc: "two adjacent actions, arbitrary ASCII pieces"},
+			{Pkg: "template", Name: "vHarness_C02_joinprefix", Quick: []ParamRange{{"ctx", 0, 4}, {"flagb", 0, 1}, {"na", 0, 2}, {"nb", 0, 2}}, Thorough: []ParamRange{{"ctx", 0, 4}, {"flagb", 0, 1}, {"na", 0, 3}, {"nb", 0, 3}}, Reach: []string{"ambiguous"},
+				Desc: "branches with different static attribute prefixes (symbolic): join records the ambiguity and an action after it is refused in URL and enumerated attributes, whichever prefix was kept"},
 			{Pkg: "template", Name: "vHarness_C02_mangle", Quick: []ParamRange{{"relvar", 0, 1}, {"ctx", 0, 5}, {"n1", 0, 2}, {"n2", 0, 2}}, Thorough: []ParamRange{{"relvar", 0, 1}, {"ctx", 0, 5}, {"n1", 0, 3}, {"n2", 0, 3}},
 				Filter: func(p map[string]int) bool { return p["relvar"] == 0 || p["ctx"] == 4 }, Reach: []string{"same-name"},
 				Desc: "two URL-attribute contexts with symbolic static prefixes (and differing rel): equal mangled names => equal sanitizer chains"},
@@ -439,6 +461,8 @@ func init() {
 					return (e == 0 || e == 1 || e == 4 || e == 6 || p["n"] <= 2) && (p["n"] <= 4 || (e == 4 && p["attr"] == 0))
 				},
 				Desc: "escapeText from an arbitrary context satisfying the data invariant (state and delimiter symbolic) over a symbolic ASCII text: no panic (incl. the 'infinite loop' panic), no index/slice out of range, every loop within the unwinding bound, result in range, error state absorbing"},
+			{Pkg: "template", Name: "vHarness_C08_special", Quick: []ParamRange{{"elem", 0, 3}, {"n", 0, 10}}, Thorough: []ParamRange{{"elem", 0, 3}, {"n", 0, 12}}, Reach: []string{"ran"},
+				Desc: "longer ASCII texts inside script, style, title and textarea (reaches every \"</name\" end-tag prefix): no panic, bounded loops"},
 			{Pkg: "template", Name: "vHarness_C08_sanitizers", Quick: []ParamRange{{"san", 0, 19}, {"n", 0, 2}}, Thorough: []ParamRange{{"san", 0, 19}, {"n", 0, 3}}, Reach: []string{"ran"},
 				Desc: "each of the 20 run-time functions on 16 argument kinds (nil, string, the seven safe types, pointers, pointers to pointers, typed nil pointers): no panic"},
 		},
